@@ -14,6 +14,7 @@ re-decoration:
     never the order of the history.
 -/
 import MysticVerif.Proofs.Reconfig
+import MysticVerif.Proofs.ReconfigNM
 
 namespace MysticVerif.Reconfig
 open MysticVerif.Solver
@@ -214,5 +215,92 @@ theorem nm_redecoration_breaks_member_energy_witness :
     NM.redecorate (fun x => x) (fun x => x.map (· + 1)) 0 2 sx = [([5, 0], 25), ([6, 0], 106), ([5, 1], 49)] ∧
     ¬ (∀ p ∈ NM.redecorate (fun x => x) (fun x => x.map (· + 1)) 0 2 sx, p.2 = cost p.1) := by
   decide
+
+end MysticVerif.Reconfig
+
+/-! ### Nelder-Mead under reconfiguration: the evaluation monitor, segment by segment -/
+
+namespace MysticVerif.Reconfig
+open MysticVerif.Solver
+
+variable {R E : Type}
+
+theorem nm_genStep_appended [Add R] [Sub R] [Mul R] [Div R] [LinearOrder E] (g : NMGen R E) (h : Hyp g.o) (k : Nat)
+    (s : NM R E) : Appended g.o s.log (NM.genStep g k s).log := by
+  unfold NM.genStep
+  split
+  · exact NM.gen1_appended h g.clip0 g.mkVal { s with simplex := g.pre s.simplex }
+  · exact NM.update_appended h g.coef g.st { s with simplex := g.pre s.simplex }
+
+/-- **C02/C03/C04 for reconfigured Nelder-Mead runs**: whatever the re-decorations did to the simplex (rebuilt vertices,
+stale energies - known finding F20), the evaluation monitor is append-only and splits into one segment per iteration
+whose records are `(x, cost x)` at points fixed by the constraints, and inside the box, in force at that iteration -/
+theorem nm_reconfigured_evaluations_segmented [Add R] [Sub R] [Mul R] [Div R] [LinearOrder E] :
+    ∀ (gs : List (NMGen R E)) (k : Nat) (s : NM R E), (∀ g ∈ gs, Hyp g.o) →
+      ∃ segs : List (List (Pt R × E)), List.Forall₂ (fun g t => LogOK g.o t) gs segs ∧
+        (NM.runFrom gs k s).log = s.log ++ segs.flatten := by
+  intro gs
+  induction gs with
+  | nil => intro k s _; exact ⟨[], List.Forall₂.nil, by simp [NM.runFrom]⟩
+  | cons g gs ih =>
+    intro k s h
+    obtain ⟨t, et, kt⟩ := nm_genStep_appended g (h g (by simp)) k s
+    obtain ⟨segs, f2, e⟩ := ih (k + 1) (NM.genStep g k s) (fun g' hg' => h g' (by simp [hg']))
+    refine ⟨t :: segs, List.Forall₂.cons kt f2, ?_⟩
+    simp only [NM.runFrom]
+    rw [e, et]
+    simp
+
+/-- **C02 under reconfiguration, Nelder-Mead**: every point the cost is called at lies in any region that contains
+all the boxes that were in force -/
+theorem nm_reconfigured_evaluations_in_box [Add R] [Sub R] [Mul R] [Div R] [LinearOrder E] (gs : List (NMGen R E))
+    (k : Nat) (s : NM R E) (h : ∀ g ∈ gs, Hyp g.o) (B : Pt R → Prop)
+    (hB : ∀ g ∈ gs, g.o.useRange = true ∧ ∀ x, g.o.inBox x = true → B x) :
+    ∀ p ∈ (NM.runFrom gs k s).log, p ∈ s.log ∨ B p.1 := by
+  obtain ⟨segs, f2, e⟩ := nm_reconfigured_evaluations_segmented gs k s h
+  intro p hp
+  rw [e] at hp
+  rcases List.mem_append.mp hp with hp | hp
+  · exact Or.inl hp
+  · right
+    obtain ⟨t, ht, hpt⟩ := List.mem_flatten.mp hp
+    have : ∀ (gs : List (NMGen R E)) (segs : List (List (Pt R × E))), List.Forall₂ (fun g t => LogOK g.o t) gs segs →
+        t ∈ segs → ∃ g ∈ gs, LogOK g.o t := by
+      intro gs segs f
+      induction f with
+      | nil => intro hm; cases hm
+      | cons hab _ ih =>
+        intro hm
+        rcases List.mem_cons.mp hm with rfl | hm
+        · exact ⟨_, by simp, hab⟩
+        · obtain ⟨g, hg, hk⟩ := ih hm
+          exact ⟨g, by simp [hg], hk⟩
+    obtain ⟨g, hg, hk⟩ := this gs segs f2 ht
+    exact (hB g hg).2 _ ((hk p hpt).2.2 (hB g hg).1)
+
+/-- **C03 under reconfiguration, Nelder-Mead** -/
+theorem nm_reconfigured_evaluations_constrained [Add R] [Sub R] [Mul R] [Div R] [LinearOrder E] (gs : List (NMGen R E))
+    (k : Nat) (s : NM R E) (h : ∀ g ∈ gs, Hyp g.o) (C : Pt R → Prop) (hC : ∀ g ∈ gs, ∀ x, g.o.K x = x → C x) :
+    ∀ p ∈ (NM.runFrom gs k s).log, p ∈ s.log ∨ C p.1 := by
+  obtain ⟨segs, f2, e⟩ := nm_reconfigured_evaluations_segmented gs k s h
+  intro p hp
+  rw [e] at hp
+  rcases List.mem_append.mp hp with hp | hp
+  · exact Or.inl hp
+  · right
+    obtain ⟨t, ht, hpt⟩ := List.mem_flatten.mp hp
+    have : ∀ (gs : List (NMGen R E)) (segs : List (List (Pt R × E))), List.Forall₂ (fun g t => LogOK g.o t) gs segs →
+        t ∈ segs → ∃ g ∈ gs, LogOK g.o t := by
+      intro gs segs f
+      induction f with
+      | nil => intro hm; cases hm
+      | cons hab _ ih =>
+        intro hm
+        rcases List.mem_cons.mp hm with rfl | hm
+        · exact ⟨_, by simp, hab⟩
+        · obtain ⟨g, hg, hk⟩ := ih hm
+          exact ⟨g, by simp [hg], hk⟩
+    obtain ⟨g, hg, hk⟩ := this gs segs f2 ht
+    exact hC g hg _ (hk p hpt).2.1
 
 end MysticVerif.Reconfig
